@@ -100,3 +100,17 @@ func repoDir() string {
 	}
 	return "/repo"
 }
+
+func evidenceDir() string {
+	if d := os.Getenv("VERIF_EVIDENCE_DIR"); d != "" {
+		return d
+	}
+	return verifDir() + "/evidence"
+}
+
+func replayDir() string {
+	if d := os.Getenv("VERIF_REPLAY_DIR"); d != "" {
+		return d
+	}
+	return verifDir() + "/replays"
+}
